@@ -620,6 +620,443 @@ theorem validMinSpan_dist (g : G) (root : Nat) (res : List (Nat × Nat))
   · exact spanOK_walk g g root res [root] [(root, 0)] hok rfl
       (spanOK_edges g res _ hok) (hbase _) v hfull
 
+/-! ### the algorithm for an arbitrary iteration order: first loop (breadth-first search) -/
+
+theorem spanOK_append (g : G) (r1 r2 : List (Nat × Nat)) : ∀ (seen : List Nat),
+    SpanOK g seen (r1 ++ r2) ↔ SpanOK g seen r1 ∧ SpanOK g (seen ++ r1.map (·.2)) r2 := by
+  induction r1 with
+  | nil => intro seen; simp [SpanOK]
+  | cons a rest ih =>
+    intro seen
+    simp only [List.cons_append, SpanOK, ih, List.map_cons, and_assoc]
+    have : seen ++ [a.2] ++ rest.map (·.2) = seen ++ a.2 :: rest.map (·.2) := by simp
+    rw [this]
+
+/-- a star: one seen vertex `q` joined to new, pairwise different neighbours -/
+theorem spanOK_star (g : G) (q : Nat) (l : List Nat) : ∀ (seen : List Nat),
+    q ∈ seen → l.Nodup → (∀ v ∈ l, v ∉ seen ∧ v < g.n ∧ g.hasEdge q v = true) →
+    SpanOK g seen (l.map (fun v => (q, v))) := by
+  induction l with
+  | nil => intro seen _ _ _; simp [SpanOK]
+  | cons a rest ih =>
+    intro seen hq hnd hall
+    rw [List.nodup_cons] at hnd
+    have ha := hall a (by simp)
+    simp only [List.map_cons, SpanOK]
+    refine ⟨⟨ha.2.2, hq, ha.1, ha.2.1⟩, ih _ (by simp [hq]) hnd.2 ?_⟩
+    intro v hv
+    have hv' := hall v (by simp [hv])
+    refine ⟨?_, hv'.2⟩
+    rw [List.mem_append]
+    rintro (h | h)
+    · exact hv'.1 h
+    · simp only [List.mem_cons, List.not_mem_nil, or_false] at h
+      exact hnd.1 (h ▸ hv)
+
+/-- invariant of the first loop; `popped` (ghost) are the vertices already expanded -/
+structure BInv (g : G) (root : Nat) (popped : List Nat) (mst : List (Nat × Nat))
+    (seen frontier : List Nat) : Prop where
+  seen_eq : seen = [root] ++ mst.map (·.2)
+  ok : SpanOK g [root] mst
+  split : seen = popped ++ frontier
+  closed : ∀ v ∈ popped, ∀ u, u < g.n → g.hasEdge v u = true → u ∈ seen
+
+theorem BInv.length_le {g : G} {root : Nat} {popped : List Nat} {mst : List (Nat × Nat)}
+    {seen frontier : List Nat} (h : BInv g root popped mst seen frontier) (hroot : root < g.n) :
+    seen.length ≤ g.n := by
+  obtain ⟨hnd, hlt⟩ := spanOK_nodup g mst [root] h.ok (by simp) (by simpa using hroot)
+  rw [h.seen_eq]
+  exact nodup_lt_length_le hnd hlt
+
+/-- the loop has finished in a state whose `seen` has `n` elements: the result is accepted -/
+theorem BInv.done {g : G} {root : Nat} {popped : List Nat} {mst : List (Nat × Nat)}
+    {seen frontier : List Nat} (h : BInv g root popped mst seen frontier) (hroot : root < g.n)
+    (hlen : g.n ≤ seen.length) : SpanOK g [root] mst ∧ mst.length + 1 = g.n := by
+  have := h.length_le hroot
+  have h2 : seen.length = mst.length + 1 := by rw [h.seen_eq]; simp
+  exact ⟨h.ok, by omega⟩
+
+/-- an empty frontier in a connected graph: everything has been seen -/
+theorem BInv.full {g : G} (hwf : g.WF) {root : Nat} {popped : List Nat} {mst : List (Nat × Nat)}
+    {seen : List Nat} (h : BInv g root popped mst seen [])
+    (hconn : ∀ v, v < g.n → Reach g root v) : g.n ≤ seen.length := by
+  have hsp : seen = popped := by rw [h.split]; simp
+  have hrs : root ∈ seen := by rw [h.seen_eq]; simp
+  have hcl : ∀ w, Reach g root w → w ∈ seen := by
+    intro w hw
+    induction hw with
+    | refl => exact hrs
+    | step _ he ih => exact h.closed _ (hsp ▸ ih) _ (g.hasEdge_lt hwf he).2.2 he
+  apply Classical.byContradiction
+  intro hlt
+  obtain ⟨v, hv, hvs⟩ := nodup_lt_missing (l := seen) (n := g.n) (by omega)
+  exact hvs (hcl v (hconn v hv))
+
+theorem spanBfs_cons (g : G) (ord : Nat → List Nat → List Nat) (fuel : Nat)
+    (mst : List (Nat × Nat)) (seen : List Nat) (q : Nat) (fr : List Nat) :
+    spanBfs g ord (fuel + 1) mst seen (q :: fr) =
+      if seen.length < g.n then
+        spanBfs g ord fuel
+          (mst ++ (ord q ((g.adj q).filter (fun v => !seen.contains v))).map (fun v => (q, v)))
+          (seen ++ ord q ((g.adj q).filter (fun v => !seen.contains v)))
+          (fr ++ ord q ((g.adj q).filter (fun v => !seen.contains v)))
+      else mst := rfl
+
+theorem BInv.step {g : G} {root : Nat} {popped : List Nat} {mst : List (Nat × Nat)}
+    {seen fr : List Nat} {q : Nat} (h : BInv g root popped mst seen (q :: fr))
+    (un : List Nat) (hun : un.Perm ((g.adj q).filter (fun v => !seen.contains v))) :
+    BInv g root (popped ++ [q]) (mst ++ un.map (fun v => (q, v))) (seen ++ un) (fr ++ un) where
+  seen_eq := by
+    rw [h.seen_eq]
+    simp [List.map_append, Function.comp_def]
+  ok := by
+    rw [spanOK_append]
+    refine ⟨h.ok, ?_⟩
+    rw [← h.seen_eq]
+    have hq : q ∈ seen := by rw [h.split]; simp
+    have hnd : un.Nodup := hun.symm.nodup (List.Pairwise.filter _ (g.nodup_adj q))
+    refine spanOK_star g q un seen hq hnd ?_
+    intro v hv
+    have := hun.mem_iff.1 hv
+    simp only [List.mem_filter, G.mem_adj, Bool.not_eq_true', List.contains_eq_mem,
+      decide_eq_false_iff_not] at this
+    exact ⟨this.2, this.1.1, this.1.2⟩
+  split := by rw [h.split]; simp
+  closed := by
+    intro v hv u hu he
+    rw [List.mem_append] at hv ⊢
+    rcases hv with hv | hv
+    · exact Or.inl (h.closed v hv u hu he)
+    · simp only [List.mem_cons, List.not_mem_nil, or_false] at hv
+      subst hv
+      by_cases hus : u ∈ seen
+      · exact Or.inl hus
+      · refine Or.inr (hun.mem_iff.2 ?_)
+        simp only [List.mem_filter, G.mem_adj, Bool.not_eq_true', List.contains_eq_mem,
+          decide_eq_false_iff_not]
+        exact ⟨⟨hu, he⟩, hus⟩
+
+/-- whatever the iteration orders, in a connected graph the first loop ends with a listing
+`mst` of a spanning tree, parent before child -/
+theorem spanBfs_spec (g : G) (hwf : g.WF) (ord : Nat → List Nat → List Nat)
+    (hord : ∀ q l, (ord q l).Perm l) (root : Nat) (hroot : root < g.n)
+    (hconn : ∀ v, v < g.n → Reach g root v) :
+    ∀ (fuel : Nat) (popped : List Nat) (mst : List (Nat × Nat)) (seen frontier : List Nat),
+      BInv g root popped mst seen frontier → g.n ≤ popped.length + fuel →
+      SpanOK g [root] (spanBfs g ord fuel mst seen frontier) ∧
+        (spanBfs g ord fuel mst seen frontier).length + 1 = g.n := by
+  intro fuel
+  induction fuel with
+  | zero =>
+    intro popped mst seen frontier h hf
+    have : spanBfs g ord 0 mst seen frontier = mst := by unfold spanBfs; rfl
+    rw [this]
+    refine h.done hroot ?_
+    have : seen.length = popped.length + frontier.length := by rw [h.split]; simp
+    omega
+  | succ fuel ih =>
+    intro popped mst seen frontier h hf
+    cases frontier with
+    | nil =>
+      have : spanBfs g ord (fuel + 1) mst seen [] = mst := by unfold spanBfs; rfl
+      rw [this]
+      exact h.done hroot (h.full hwf hconn)
+    | cons q fr =>
+      rw [spanBfs_cons]
+      by_cases hlt : seen.length < g.n
+      · rw [if_pos hlt]
+        refine ih _ _ _ _ (h.step _ (hord q _)) ?_
+        simp only [List.length_append, List.length_cons, List.length_nil]
+        omega
+      · rw [if_neg hlt]
+        exact h.done hroot (by omega)
+
+theorem bInv_init (g : G) (root : Nat) : BInv g root [] [] [root] [root] where
+  seen_eq := rfl
+  ok := trivial
+  split := rfl
+  closed := by simp
+
+/-! ### second loop (depth-first traversal of the tree) -/
+
+theorem spanOK_child_not_seen (g : G) (res : List (Nat × Nat)) : ∀ (seen : List Nat),
+    SpanOK g seen res → ∀ pc ∈ res, pc.2 ∉ seen := by
+  induction res with
+  | nil => intro _ _ pc hpc; simp at hpc
+  | cons a rest ih =>
+    intro seen h pc hpc
+    rw [List.mem_cons] at hpc
+    rcases hpc with rfl | hpc
+    · exact h.1.2.2.1
+    · exact fun hm => ih _ h.2 pc hpc (by simp [hm])
+
+theorem spanOK_parent_mem (g : G) (res : List (Nat × Nat)) : ∀ (seen : List Nat),
+    SpanOK g seen res → ∀ pc ∈ res, pc.1 ∈ seen ++ res.map (·.2) := by
+  induction res with
+  | nil => intro _ _ pc hpc; simp at hpc
+  | cons a rest ih =>
+    intro seen h pc hpc
+    rw [List.mem_cons] at hpc
+    rcases hpc with rfl | hpc
+    · simp [h.1.2.1]
+    · have := ih _ h.2 pc hpc
+      simpa [List.append_assoc] using this
+
+/-- no pair is listed in both orientations (and no self loop) -/
+theorem spanOK_no_back (g : G) (res : List (Nat × Nat)) : ∀ (seen : List Nat),
+    SpanOK g seen res → ∀ a b, (a, b) ∈ res → (b, a) ∈ res → False := by
+  induction res with
+  | nil => intro _ _ a b h; simp at h
+  | cons x rest ih =>
+    intro seen h a b h1 h2
+    rw [List.mem_cons] at h1 h2
+    have hx1 := h.1.2.1
+    have hx2 := h.1.2.2.1
+    rcases h1 with h1 | h1 <;> rcases h2 with h2 | h2
+    · rw [← h1] at h2
+      simp only [Prod.mk.injEq] at h2
+      rw [← h1] at hx1 hx2
+      exact hx2 (h2.1 ▸ hx1)
+    · have := spanOK_child_not_seen g rest _ h.2 _ h2
+      rw [← h1] at hx1
+      exact this (by simp [hx1])
+    · have := spanOK_child_not_seen g rest _ h.2 _ h1
+      rw [← h2] at hx1
+      exact this (by simp [hx1])
+    · exact ih _ h.2 a b h1 h2
+
+theorem eq_of_snd_eq : ∀ (res : List (Nat × Nat)), (res.map (·.2)).Nodup →
+    ∀ x ∈ res, ∀ y ∈ res, x.2 = y.2 → x = y := by
+  intro res
+  induction res with
+  | nil => intro _ x hx; simp at hx
+  | cons a rest ih =>
+    intro hnd x hx y hy hxy
+    rw [List.map_cons, List.nodup_cons] at hnd
+    rw [List.mem_cons] at hx hy
+    rcases hx with rfl | hx <;> rcases hy with rfl | hy
+    · rfl
+    · exact absurd (List.mem_map.2 ⟨y, hy, hxy.symm⟩) hnd.1
+    · exact absurd (List.mem_map.2 ⟨x, hx, hxy⟩) hnd.1
+    · exact ih hnd.2 x hx y hy hxy
+
+/-- facts about a parent-before-child listing `M` of a spanning tree -/
+structure TreeL (g : G) (root : Nat) (M : List (Nat × Nat)) : Prop where
+  ok : SpanOK g [root] M
+  len : M.length + 1 = g.n
+  root_lt : root < g.n
+
+namespace TreeL
+variable {g : G} {root : Nat} {M : List (Nat × Nat)}
+
+theorem nodup (h : TreeL g root M) : ([root] ++ M.map (·.2)).Nodup :=
+  (spanOK_nodup g M [root] h.ok (by simp) (by simpa using h.root_lt)).1
+
+theorem lt (h : TreeL g root M) : ∀ v ∈ [root] ++ M.map (·.2), v < g.n :=
+  (spanOK_nodup g M [root] h.ok (by simp) (by simpa using h.root_lt)).2
+
+theorem full (h : TreeL g root M) : ∀ v, v < g.n → v ∈ [root] ++ M.map (·.2) :=
+  nodup_lt_full h.nodup h.lt (by simp; have := h.len; omega)
+
+/-- a vertex has at most one parent -/
+theorem parent_unique (h : TreeL g root M) {p p' c : Nat} (h1 : (p, c) ∈ M) (h2 : (p', c) ∈ M) :
+    p = p' := by
+  have hnd := h.nodup
+  simp only [List.cons_append, List.nil_append, List.nodup_cons] at hnd
+  have := eq_of_snd_eq M hnd.2 _ h1 _ h2 rfl
+  simpa using this
+
+theorem child_ne_root (h : TreeL g root M) {p c : Nat} (h1 : (p, c) ∈ M) : c ≠ root := by
+  have := spanOK_child_not_seen g M _ h.ok _ h1
+  simpa using this
+
+theorem no_back (h : TreeL g root M) {a b : Nat} (h1 : (a, b) ∈ M) (h2 : (b, a) ∈ M) : False :=
+  spanOK_no_back g M _ h.ok a b h1 h2
+
+end TreeL
+
+theorem spanDfs_some (t : G) (ord : Nat → List Nat → List Nat) (fuel : Nat)
+    (out : List (Nat × Nat)) (q : Nat) (i : Nat × Nat) (st : List (Nat × Option (Nat × Nat))) :
+    spanDfs t ord (fuel + 1) out ((q, some i) :: st) =
+      spanDfs t ord fuel (out ++ [i])
+        ((((ord q (t.adj q)).filter (fun nb => nb != i.1)).map
+          (fun nb => (nb, some (q, nb)))).reverse ++ st) := rfl
+
+theorem spanDfs_none (t : G) (ord : Nat → List Nat → List Nat) (fuel : Nat)
+    (out : List (Nat × Nat)) (q : Nat) (st : List (Nat × Option (Nat × Nat))) :
+    spanDfs t ord (fuel + 1) out ((q, none) :: st) =
+      spanDfs t ord fuel out
+        ((((ord q (t.adj q)).filter (fun _ => true)).map
+          (fun nb => (nb, some (q, nb)))).reverse ++ st) := rfl
+
+/-- invariant of the second loop (after its first iteration): `out` is a parent-before-child
+listing of tree edges; every stack entry is a tree edge from a visited vertex to an unvisited
+one; every tree edge is listed, or waits on the stack, or its parent is still unvisited -/
+structure DInv (g : G) (root : Nat) (M out : List (Nat × Nat))
+    (st : List (Nat × Option (Nat × Nat))) : Prop where
+  ok : SpanOK g [root] out
+  sub : ∀ pc ∈ out, pc ∈ M
+  entry : ∀ x ∈ st, ∃ p, x.2 = some (p, x.1) ∧ (p, x.1) ∈ M ∧
+    p ∈ [root] ++ out.map (·.2) ∧ x.1 ∉ [root] ++ out.map (·.2)
+  st_nodup : (st.map (·.1)).Nodup
+  complete : ∀ pc ∈ M, pc ∈ out ∨ (pc.2, some pc) ∈ st ∨ pc.1 ∉ [root] ++ out.map (·.2)
+
+section dfs
+variable {g : G} {root : Nat} {M out : List (Nat × Nat)} {st : List (Nat × Option (Nat × Nat))}
+
+theorem DInv.vis_nodup (h : DInv g root M out st) (hroot : root < g.n) :
+    ([root] ++ out.map (·.2)).Nodup ∧ ∀ v ∈ [root] ++ out.map (·.2), v < g.n :=
+  spanOK_nodup g out [root] h.ok (by simp) (by simpa using hroot)
+
+/-- visited vertices and stack vertices are pairwise different vertices `< n` -/
+theorem DInv.bound (hM : TreeL g root M) (h : DInv g root M out st) :
+    1 + out.length + st.length ≤ g.n := by
+  obtain ⟨hnd, hlt⟩ := h.vis_nodup hM.root_lt
+  have hnd' : (([root] ++ out.map (·.2)) ++ st.map (·.1)).Nodup := by
+    rw [List.nodup_append]
+    refine ⟨hnd, h.st_nodup, ?_⟩
+    intro a ha b hb hab
+    obtain ⟨x, hx, hxb⟩ := List.mem_map.1 hb
+    obtain ⟨p, _, _, _, hnv⟩ := h.entry x hx
+    exact hnv (hxb ▸ hab ▸ ha)
+  have hlt' : ∀ v ∈ ([root] ++ out.map (·.2)) ++ st.map (·.1), v < g.n := by
+    intro v hv
+    rw [List.mem_append] at hv
+    rcases hv with hv | hv
+    · exact hlt v hv
+    · obtain ⟨x, hx, hxb⟩ := List.mem_map.1 hv
+      obtain ⟨p, _, hpm, _, _⟩ := h.entry x hx
+      exact hM.lt v (by
+        rw [List.mem_append]; right
+        exact List.mem_map.2 ⟨(p, x.1), hpm, hxb⟩)
+  have := nodup_lt_length_le hnd' hlt'
+  simp only [List.length_append, List.length_cons, List.length_nil, List.length_map] at this
+  omega
+
+/-- with an empty stack every tree edge has been listed -/
+theorem DInv.finished (hM : TreeL g root M) (h : DInv g root M out []) :
+    out.length + 1 = g.n := by
+  obtain ⟨hnd, hlt⟩ := h.vis_nodup hM.root_lt
+  have hall : ∀ v ∈ [root] ++ M.map (·.2), v ∈ [root] ++ out.map (·.2) := by
+    refine spanOK_induct g (fun v => v ∈ [root] ++ out.map (·.2)) M [root] hM.ok ?_ ?_
+    · intro pc hpc hp
+      rcases h.complete pc hpc with hc | hc | hc
+      · rw [List.mem_append]; right
+        exact List.mem_map.2 ⟨pc, hc, rfl⟩
+      · simp at hc
+      · exact absurd hp hc
+    · intro v hv
+      simp only [List.mem_cons, List.not_mem_nil, or_false] at hv
+      simp [hv]
+  have hle := nodup_lt_length_le hnd hlt
+  have hge : g.n ≤ ([root] ++ out.map (·.2)).length := by
+    apply Classical.byContradiction
+    intro hlt'
+    obtain ⟨v, hv, hvs⟩ := nodup_lt_missing (l := [root] ++ out.map (·.2)) (n := g.n) (by omega)
+    exact hvs (hall v (hM.full v hv))
+  simp only [List.length_append, List.length_cons, List.length_nil, List.length_map] at hle hge
+  omega
+
+/-- one iteration: the top entry `(c, (p, c))` is listed and the children `nb` of `c` are
+pushed -/
+theorem DInv.push (hM : TreeL g root M) {c p : Nat} {inter : Option (Nat × Nat)}
+    (h : DInv g root M out ((c, inter) :: st)) (hinter : inter = some (p, c))
+    (nb : List Nat) (hnbnd : nb.Nodup) (hnb : ∀ u, u ∈ nb ↔ (c, u) ∈ M) :
+    DInv g root M (out ++ [(p, c)]) ((nb.map (fun u => (u, some (c, u)))).reverse ++ st) := by
+  obtain ⟨p', hp1, hpM', hpv', hcv⟩ := h.entry (c, inter) (by simp)
+  have hpp : p' = p := by
+    simp only [hinter, Option.some.injEq, Prod.mk.injEq] at hp1
+    exact hp1.1.symm
+  subst hpp
+  have hpM : (p', c) ∈ M := hpM'
+  have hstnd := h.st_nodup
+  simp only [List.map_cons, List.nodup_cons] at hstnd
+  have hvis' : ∀ v, v ∈ [root] ++ (out ++ [(p', c)]).map (·.2) ↔
+      v ∈ [root] ++ out.map (·.2) ∨ v = c := by
+    intro v; simp [List.map_append, or_assoc]
+  -- children of `c` are unvisited
+  have hchild : ∀ u, (c, u) ∈ M → u ∉ [root] ++ (out ++ [(p', c)]).map (·.2) := by
+    intro u hu hm
+    rw [hvis'] at hm
+    rcases hm with hm | hm
+    · rw [List.mem_append] at hm
+      rcases hm with hm | hm
+      · simp only [List.mem_cons, List.not_mem_nil, or_false] at hm
+        exact hM.child_ne_root hu hm
+      · obtain ⟨pc, hpc, hpcu⟩ := List.mem_map.1 hm
+        have hpcM := h.sub pc hpc
+        have : pc = (c, u) := by
+          have h1 : (pc.1, u) ∈ M := by rw [← hpcu]; exact hpcM
+          have := hM.parent_unique h1 hu
+          rw [← this, ← hpcu]
+        rw [this] at hpc
+        exact hcv (spanOK_parent_mem g out _ h.ok _ hpc)
+    · subst hm
+      exact hM.no_back hu hu
+  refine ⟨?_, ?_, ?_, ?_, ?_⟩
+  · rw [spanOK_append]
+    refine ⟨h.ok, ?_, trivial⟩
+    refine ⟨spanOK_edges g M _ hM.ok _ hpM, hpv', hcv, ?_⟩
+    exact hM.lt c (by rw [List.mem_append]; right; exact List.mem_map.2 ⟨_, hpM, rfl⟩)
+  · intro pc hpc
+    rw [List.mem_append] at hpc
+    rcases hpc with hpc | hpc
+    · exact h.sub pc hpc
+    · simp only [List.mem_cons, List.not_mem_nil, or_false] at hpc
+      exact hpc ▸ hpM
+  · intro x hx
+    rw [List.mem_append, List.mem_reverse, List.mem_map] at hx
+    rcases hx with ⟨u, hu, rfl⟩ | hx
+    · have huM := (hnb u).1 hu
+      refine ⟨c, rfl, huM, ?_, hchild u huM⟩
+      rw [hvis']; exact Or.inr rfl
+    · obtain ⟨q, hq1, hq2, hq3, hq4⟩ := h.entry x (by simp [hx])
+      refine ⟨q, hq1, hq2, ?_, ?_⟩
+      · rw [hvis']; exact Or.inl hq3
+      · rw [hvis']
+        rintro (hm | hm)
+        · exact hq4 hm
+        · exact hstnd.1 (List.mem_map.2 ⟨x, hx, hm⟩)
+  · rw [List.map_append, List.map_reverse, List.map_map]
+    have hid : (nb.map ((fun x : Nat × Option (Nat × Nat) => x.1) ∘ fun u => (u, some (c, u)))) = nb := by
+      simp [Function.comp_def]
+    rw [hid, List.nodup_append]
+    refine ⟨(List.reverse_perm nb).symm.nodup hnbnd, hstnd.2, ?_⟩
+    intro a ha b hb hab
+    rw [List.mem_reverse] at ha
+    obtain ⟨x, hx, hxb⟩ := List.mem_map.1 hb
+    obtain ⟨q, _, hq2, hq3, _⟩ := h.entry x (by simp [hx])
+    have haM := (hnb a).1 ha
+    have : q = c := by
+      have h1 : (q, a) ∈ M := by rw [hab, ← hxb]; exact hq2
+      exact hM.parent_unique h1 haM
+    exact hcv (this ▸ hq3)
+  · intro pc hpc
+    rcases h.complete pc hpc with hc | hc | hc
+    · exact Or.inl (by simp [hc])
+    · rw [List.mem_cons] at hc
+      rcases hc with hc | hc
+      · left
+        simp only [Prod.mk.injEq] at hc
+        rw [hinter] at hc
+        simp only [Option.some.injEq] at hc
+        simp [hc.2]
+      · exact Or.inr (Or.inl (by simp [hc]))
+    · by_cases hpc1 : pc.1 = c
+      · right; left
+        have hcu : (c, pc.2) ∈ M := by rw [← hpc1]; exact hpc
+        rw [List.mem_append, List.mem_reverse, List.mem_map]
+        left
+        refine ⟨pc.2, (hnb pc.2).2 hcu, ?_⟩
+        rw [← hpc1]
+      · right; right
+        rw [hvis']
+        rintro (hm | hm)
+        · exact hc hm
+        · exact hpc1 hm
+
+end dfs
+
 /-! ### non-vacuity -/
 section examples
 
